@@ -266,6 +266,15 @@ impl IntoIterator for BackoffStrategy {
     }
 }
 
+fn saturating_from_nanos(nanos: u128) -> Duration {
+    const NANOS_PER_SEC: u128 = 1_000_000_000;
+
+    match u64::try_from(nanos / NANOS_PER_SEC) {
+        Ok(secs) => Duration::new(secs, (nanos % NANOS_PER_SEC) as u32),
+        Err(_) => Duration::MAX,
+    }
+}
+
 #[doc(hidden)]
 pub struct BackoffStrategyIter {
     strategy_type: Strategy,
@@ -286,10 +295,14 @@ impl Iterator for BackoffStrategyIter {
             return None;
         }
 
+        // Delays that would overflow saturate instead of panicking or wrapping around
         let mut next_duration = match self.strategy_type {
-            Strategy::Linear => step * current_attempt,
+            Strategy::Linear => step.checked_mul(current_attempt).unwrap_or(Duration::MAX),
             Strategy::Constant => step,
-            Strategy::Exponential(factor) => step.mul_f64(factor.pow(current_attempt - 1) as f64),
+            Strategy::Exponential(factor) => {
+                let multiplier = u128::from(factor).saturating_pow(current_attempt - 1);
+                saturating_from_nanos(step.as_nanos().saturating_mul(multiplier))
+            }
         };
 
         self.current_attempt += 1;
